@@ -61,7 +61,7 @@ def run_case(case):
             cs.append((names.pop(), "log", a, b, n))
         else:
             step = r.choice([Fr(1, 2), Fr(1), Fr(2)])
-            a = Fr(r.randint(-2, 2))
+            a = Fr(r.randint(-2, 2)) if r.random() < 0.5 else Fr(r.randint(1, 3))
             cs.append((names.pop(), "lin", a, a + step * (n - 1), n))
     exact = all(c[1] == "lin" for c in cs)
     tol = None if exact else 1e-9
@@ -207,5 +207,39 @@ def run_case(case):
         v0, v1, vo = Fr(call(p_in0)), Fr(call(p_in1)), Fr(call(p_out))
         if vo != v1 + 2 * (v1 - v0):
             out["violations"].append({"clause": "continues the outermost segment linearly outside a linear grid", "detail": f"{sig} along {k}: f(b+2h)={vo}, extension {v1 + 2 * (v1 - v0)}", "key": "C14:extrapolate"})
+    # twin space: the same variable names and the same (start, stop, n_points), but the *other* grid kind for every
+    # continuous axis with a positive start - a representation must depend on its own space description only
+    twin_cs = [(k, ("log" if gk == "lin" else "lin"), float(a_), float(b_), n) for k, gk, a_, b_, n in cs if float(a_) > 0]
+    if twin_cs and len(twin_cs) == len(cs) and not out["violations"]:
+        interp2 = {k: (LinspaceGrid(start=a_, stop=b_, n_points=n) if gk == "lin" else LogspaceGrid(start=a_, stop=b_, n_points=n)) for k, gk, a_, b_, n in twin_cs}
+        si2 = SpaceInfo(axis_names=axis_names, lookup_info=lookup, interpolation_info=interp2, indexer_infos=idx_infos)
+        try:
+            f2 = get_function_representation(si2, "vf_arr", input_prefix="next_")
+            for pt in pts[:3]:
+                kw = {"vf_arr": jnp.asarray(varr)}
+                if sp:
+                    kw["state_indexer"] = jnp.asarray(indexer)
+                for k, _ in sp + dd:
+                    kw[f"next_{k}"] = int(pt[k])
+                # evaluate at a node of the twin grid: the stored value must come back
+                idx = []
+                if sp:
+                    idx.append(int(indexer[tuple(int(pt[k]) for k, _ in sp)]))
+                idx += [int(pt[k]) for k, _ in dd]
+                for k, gk, a_, b_, n in twin_cs:
+                    nodes = np.asarray(interp2[k].to_jax())
+                    j = r.randint(0, n - 1)
+                    kw[f"next_{k}"] = float(nodes[j])
+                    idx.append(j)
+                got = float(f2(**kw))
+                want = float(varr[tuple(idx)])
+                out["evals"] += 1
+                if abs(got - want) > 1e-9 * max(1.0, abs(want)):
+                    out["violations"].append({"clause": "stored values are reproduced at grid nodes (second representation in the same process: same names and parameters, other grid kind)",
+                                              "detail": f"{sig}: twin grids {[(k, gk, a_, b_, n) for k, gk, a_, b_, n in twin_cs]} node {idx}: {got} vs stored {want}", "key": "C14:twin"})
+                    break
+            out["hist"]["twin_representation"] = 1
+        except Exception as e:  # noqa: BLE001
+            out["violations"].append({"clause": "a second representation is built and evaluated", "detail": f"{impl_site(e)}: {str(e)[:200]}", "key": "C14:twin-eval"})
     out["sample"] = {"axis_names": axis_names, "value_shape": vshape, "point": {k: str(v) for k, v in pts[0].items()}, "model": ans[0]}
     return out
